@@ -1,10 +1,36 @@
-from jsim.envs.base import Adapter
+"""RubiksCube: rules from docs/environments/rubiks_cube.md and the class docstring.
+
+Cube (6, n, n) int8 of sticker colours 0..5; action (face 0..5, depth 0..n//2-1, amount 0..2). The goal is
+"all stickers on each face match a single colour"; the episode ends when the cube is solved or at the time
+limit. The observation is a copy of `cube` and `step_count`. (The geometry of the moves is C17's business.)
+"""
+from __future__ import annotations
+
+from typing import Any, Dict, List, Optional
+
+import numpy as np
+
 from jsim.envs._mk import cfg, cross_tl
+from jsim.envs.base import Adapter
+
+# faces in the documented order up, front, right, back, left, down -> index of the opposite face
+OPPOSITE = {0: 5, 5: 0, 1: 3, 3: 1, 2: 4, 4: 2}
+
+
+def solved(cube: np.ndarray) -> bool:
+    c = np.asarray(cube)
+    return bool(all((c[f] == c[f].flat[0]).all() for f in range(c.shape[0])))
 
 
 class A(Adapter):
     name = "RubiksCube"
     mask_mode = None
+    has_observer = True
+
+    def __init__(self) -> None:
+        self._perms: Dict[int, np.ndarray] = {}  # cube size -> (moves, 6nn) sticker permutation per action (policy only)
+        self._acts: Dict[int, List[List[int]]] = {}
+        self._plans: Dict[bytes, List[List[int]]] = {}
 
     def configs(self):
         base = [cfg("n3s100", True, n=3, scr=100, tl=None), cfg("n2s3", True, n=2, scr=3, tl=None), cfg("n4s10", n=4, scr=10, tl=None),
@@ -21,3 +47,94 @@ class A(Adapter):
 
     def time_limit(self, env, c):
         return 200 if c.get("tl") is None else c["tl"]
+
+    # ---- C11 -------------------------------------------------------------------------------------
+    def end_cause(self, ps, action, s, ts, env, cfg):
+        return "solved" if solved(s.cube) else None
+
+    # ---- C12 -------------------------------------------------------------------------------------
+    def observe(self, s, obs, env, cfg):
+        oc, sc = np.asarray(obs.cube), np.asarray(s.cube)
+        if oc.shape != sc.shape:
+            return ("cube_shape", f"obs.cube {oc.shape} vs state.cube {sc.shape}")
+        if not np.array_equal(oc, sc):
+            i = np.argwhere(oc != sc)[0]
+            return ("cube", f"obs.cube{i.tolist()} = {int(oc[tuple(i)])} but state.cube = {int(sc[tuple(i)])}")
+        if np.asarray(obs.step_count).shape != () or int(obs.step_count) != int(s.step_count):
+            return ("step_count", f"obs.step_count {np.asarray(obs.step_count).tolist()} vs state.step_count {int(s.step_count)}")
+        return None
+
+    # ---- policies (clients; these may use the env as a black box) -------------------------------------
+    def _all_actions(self, env: Any) -> List[List[int]]:
+        nv = [int(v) for v in np.asarray(env.action_spec.num_values).reshape(-1)]
+        return [[f, d, m] for f in range(nv[0]) for d in range(nv[1]) for m in range(nv[2])]
+
+    def policy_survive(self, s, env, rng, legal):
+        """A turn of a layer parallel to face F leaves the stickers of F and of the opposite face on their
+        faces, so it cannot solve the cube unless both are already uniform: turn about an axis whose two
+        faces are not both uniform (exists whenever the cube is not solved)."""
+        c = np.asarray(s.cube)
+        uni = [bool((c[f] == c[f].flat[0]).all()) for f in range(6)]
+        acts = self._all_actions(env)
+        safe = [a for a in acts if not (uni[a[0]] and uni[OPPOSITE[a[0]]])]
+        pool = safe or acts  # solved cube at reset (0 scrambles): any single turn unsolves it
+        return list(pool[int(rng.integers(0, len(pool)))])
+
+    def _tables(self, s: Any, env: Any) -> np.ndarray:
+        """Sticker permutation of every action, learned by stepping two labelled cubes through the real env."""
+        n = int(np.asarray(s.cube).shape[1])
+        if n not in self._perms:
+            import jax
+            import jax.numpy as jnp
+
+            acts = self._all_actions(env)
+            size = 6 * n * n
+            lab = np.arange(size)
+            fork = jax.jit(jax.vmap(env.step, in_axes=(None, 0)))
+            out = []
+            for plane in (lab // 100, lab % 100):
+                st = s.replace(cube=jnp.asarray(plane.reshape(6, n, n), dtype=jnp.int8), step_count=jnp.asarray(0, jnp.int32),
+                               key=jnp.asarray(s.key))
+                ns, _ = fork(st, jnp.asarray(acts, dtype=jnp.int32))
+                out.append(np.asarray(ns.cube).reshape(len(acts), size).astype(np.int64))
+            self._perms[n] = out[0] * 100 + out[1]  # new.flat[i] = old.flat[perm[i]]
+            self._acts[n] = acts
+        return self._perms[n]
+
+    def policy_complete(self, s, env, rng, legal):
+        """Breadth-first search (depth <= 3) over the learned move permutations; only for lightly scrambled cubes."""
+        scr = int(getattr(env.generator, "num_scrambles_on_reset", 99))
+        if scr > 3:
+            return None
+        cube = np.asarray(s.cube)
+        n = cube.shape[1]
+        key = cube.tobytes()
+        plan = self._plans.get(key)
+        if plan:
+            return list(plan[0])
+        perms = self._tables(s, env)
+        acts = self._acts[n]
+        if solved(cube):
+            return list(acts[int(rng.integers(0, len(acts)))])
+        frontier = cube.reshape(1, -1)
+        paths: List[List[int]] = [[]]
+        for _ in range(3):
+            nxt = frontier[:, perms]  # (k, moves, size)
+            k, m, size = nxt.shape
+            faces = nxt.reshape(k, m, 6, n * n)
+            ok = (faces == faces[..., :1]).all(axis=(2, 3))
+            hit = np.argwhere(ok)
+            if len(hit):
+                i, a = int(hit[0][0]), int(hit[0][1])
+                word = paths[i] + [a]
+                cur = cube.reshape(-1)
+                self._plans.clear()
+                for j, w in enumerate(word):
+                    self._plans[cur.reshape(cube.shape).astype(cube.dtype).tobytes()] = [acts[x] for x in word[j:]]
+                    cur = cur[perms[w]]
+                return list(acts[word[0]])
+            if k * m > 2000:
+                break
+            frontier = nxt.reshape(k * m, size)
+            paths = [p + [a] for p in paths for a in range(m)]
+        return None
